@@ -6,7 +6,9 @@ RULE = ("one case = one generated WMO root (first half of the index space) or gr
         "one third pointing into the middle of a string), group infos + names, portals + vertices, portal references, visibility lists, lights, doodad "
         "definitions, doodad sets, skybox, header flags / ambient colour / bounds; group: vertices, normals, texture coordinates, indices, colours, "
         "batches, BSP nodes, liquid, doodad references, header. Every list is independently empty / one element / many (cases 0,1,2 are the uniform "
-        "patterns); names come from a pool with shared prefixes and suffix relations; floats include +-0, subnormal, +-inf and NaN payloads (compared "
+        "patterns); behind the regular index space come boundary-size cases: one list at a time (9 root lists, 8 flat group lists) with exactly 4096, 4097 and a random "
+        "4098..5597 elements (the length up to which the parsers pre-allocate; pattern letter H4096 / H4097 / H>4097; thorough: 5 more random lengths per list), "
+        "the other lists random; names come from a pool with shared prefixes and suffix relations; floats include +-0, subnormal, +-inf and NaN payloads (compared "
         "bitwise). Oracles per version: (c) independent chunk walker (4-byte magic reversed on disk, u32 size): chunks tile the file, MOHD counts == "
         "record counts of MOMT/MOGI/MOPT/MOLT/MODN/MODD/MODS, MOTX/MOGN/MODN offsets resolve to the intended strings, MOGP size == measured size, "
         "sub-chunks tile MOGP and decode (format layouts) to the model's lists; (a) WmoParser::parse_root and parse_wmo projections == model projection, "
